@@ -73,6 +73,10 @@ def run(rep, tier, driver):
                                                     "generator": xs[2 * k:], "cpu_count": 4, "verbose_none": 1}))
             paths.append(("generator-all-containers", {"fn": "convert_generator", "glycan": xs[0], "glycan_list": xs[1:k], "file_lines": "\n".join(xs[k:2 * k]) + "\n",
                                                        "generator": xs[2 * k:], "verbose_none": 1}))
+            if tier != "quick" and bi >= 2:
+                # thorough: the container / verbosity variants on the first two batches only (each batch has 700 inputs)
+                paths = [pc for pc in paths if not (pc[0].startswith("stdout-verbose") or pc[0].startswith("file-prefilled") or
+                                                     pc[0] in ("return-verbose-debug", "stdout-generator-only", "return-all-containers", "generator-all-containers"))]
             for name, call in paths:
                 o = apirun.run_calls([call])[0]
                 rep.count(name)
